@@ -58,6 +58,15 @@ theorem run_append (s : St) (a b : List Ev) :
   | nil => simp [run]
   | cons e es ih => simp [run, ih, List.append_assoc]
 
+/-- time passing changes no state; it writes at most one element (`<r/>` or a ping) -/
+theorem tick_cases (s : St) : step s .tick = (s, []) ∨ ∃ k, step s .tick = (s, [send s k]) := by
+  simp only [step, sendPing]
+  split
+  · split
+    · exact Or.inr ⟨_, rfl⟩
+    · exact Or.inr ⟨_, rfl⟩
+  · exact Or.inl rfl
+
 /-- state right after cut + reconnect, from ANY state with a live connection and no pending redirect -/
 theorem cut_reconnect_state (s : St) (hc : s.conn = .connected) (hr : s.redirect = false) :
     (run s cutAndReconnect).1 =
@@ -65,8 +74,8 @@ theorem cut_reconnect_state (s : St) (hc : s.conn = .connected) (hr : s.redirect
                streamIdSet := false, streamVersionSet := false, authenticated := false, sessionStarted := false,
                smEnabled := false, smResumed := false, ackEnabled := false, bind2Bound := false,
                pendingIq := s.pendingIq - (if s.canResume then 0 else s.pendingIq),
-               hasToken := s.cfg.token } := by
-  simp [cutAndReconnect, run, step, hc, onSocketDisconnected, hr, closeSession, handleStart]
+               hasToken := s.cfg.token, target := connectTarget s } := by
+  simp [cutAndReconnect, run, step, hc, onSocketDisconnected, hr, closeSession, handleStart, connectTarget]
 
 /-! ### frame facts about `openSession` -/
 
@@ -574,7 +583,7 @@ macro "cnt_crush" : tactic => `(tactic| ((repeat' split) <;> simp))
 @[simp] theorem nC_startBind (s : St) : nC (startBind s).2 = 0 := by unfold startBind; simp
 @[simp] theorem nC_startSmEnable (s : St) : nC (startSmEnable s).2 = 0 := by unfold startSmEnable; simp
 @[simp] theorem nC_startSmResume (s : St) : nC (startSmResume s).2 = 0 := by unfold startSmResume; simp
-@[simp] theorem nC_onSmEnabled (s : St) (b : Bool) : nC (onSmEnabled s b).2 = 0 := by unfold onSmEnabled; simp
+@[simp] theorem nC_onSmEnabled (s : St) (b l : Bool) : nC (onSmEnabled s b l).2 = 0 := by unfold onSmEnabled; simp
 @[simp] theorem nC_onSmResumed (s : St) : nC (onSmResumed s).2 = 0 := by unfold onSmResumed; simp
 theorem nC_handleStarttls (s : St) (f : Features) : ∀ r, handleStarttls s f = some r → nC r.2 = 0 := by
   intro r hr
@@ -718,8 +727,8 @@ theorem smResumeHandle_done (s : St) (e : El) : Done s (smResumeHandle s e) := b
 theorem smEnableHandle_done (s : St) (e : El) : Done s (smEnableHandle s e) := by
   unfold smEnableHandle
   split
-  · rename_i resume
-    exact done_open s (onSmEnabled s resume).1 (onSmEnabled s resume).2 (by simp) rfl
+  · rename_i resume loc
+    exact done_open s (onSmEnabled s resume loc).1 (onSmEnabled s resume loc).2 (by simp) rfl
   · have := done_open s s [] rfl rfl
     simpa using this
   · exact done_of_zero (by simp)
@@ -764,6 +773,7 @@ theorem step_done (s : St) (e : Ev) :
   | sendIq => left; simp only [step, sendIq]; cnt_crush
   | recvWhitespace => left; simp [step]
   | recvPartial => left; simp only [step]; split <;> simp
+  | tick => left; rcases tick_cases s with h | ⟨k, h⟩ <;> rw [h] <;> simp [send]
   | closeTail => left; simp [step]
   | recv el =>
     simp only [step]
@@ -795,7 +805,7 @@ theorem step_done (s : St) (e : Ev) :
 @[simp] theorem nD_startBind (s : St) : nD (startBind s).2 = 0 := by unfold startBind; simp
 @[simp] theorem nD_startSmEnable (s : St) : nD (startSmEnable s).2 = 0 := by unfold startSmEnable; simp
 @[simp] theorem nD_startSmResume (s : St) : nD (startSmResume s).2 = 0 := by unfold startSmResume; simp
-@[simp] theorem nD_onSmEnabled (s : St) (b : Bool) : nD (onSmEnabled s b).2 = 0 := by unfold onSmEnabled; simp
+@[simp] theorem nD_onSmEnabled (s : St) (b l : Bool) : nD (onSmEnabled s b l).2 = 0 := by unfold onSmEnabled; simp
 @[simp] theorem nD_onSmResumed (s : St) : nD (onSmResumed s).2 = 0 := by unfold onSmResumed; simp
 @[simp] theorem nD_openSession (s : St) : nD (openSession s).2 = 0 := (openSession_counts s).2
 @[simp] theorem nC_openSession (s : St) : nC (openSession s).2 = 1 := (openSession_counts s).1
@@ -1082,6 +1092,7 @@ theorem step_effD (s : St) (e : Ev) : EffD s.sessionStarted (step s e) := by
     · exact effD_quiet (by simp) h
   | recvWhitespace => exact effD_quiet (by simp [step]) rfl
   | recvPartial => simp only [step]; split <;> exact effD_quiet (by simp) rfl
+  | tick => rcases tick_cases s with h | ⟨k, h⟩ <;> rw [h] <;> exact effD_quiet (by simp [send]) rfl
   | closeTail => exact disconnectFromHost_effD s
   | recv el =>
     simp only [step]
@@ -1212,6 +1223,7 @@ theorem step_j (s : St) (e : Ev) (hj : JP s) (hconf : noNegotiationInSession s e
         · exact ⟨fun _ => by show (sendStanza s (.iqRequest false)).1.listener = _; rw [hc]; exact hl, by simp⟩
       | recvWhitespace => exact ⟨fun _ => hl, by simp [step]⟩
       | recvPartial => simp only [step]; split <;> exact ⟨fun _ => hl, by simp⟩
+      | tick => rcases tick_cases s with h | ⟨k, h⟩ <;> rw [h] <;> exact ⟨fun _ => hl, by simp [send]⟩
       | closeTail => exact ⟨fun _ => by show (disconnectFromHost s).1.listener = _; rw [disconnectFromHost_listener]; exact hl, by simp [step]⟩
       | recv el =>
         simp only [step]
@@ -1649,6 +1661,7 @@ theorem step_minv (s : St) (e : Ev) (hm : MInv s) : MInv (step s e).1 := by
       exact hm (by rw [← hc.2.1]; exact hss)
   | recvWhitespace => exact hm
   | recvPartial => simp only [step]; split <;> exact hm
+  | tick => rcases tick_cases s with h | ⟨k, h⟩ <;> rw [h] <;> exact hm
   | closeTail =>
     by_cases hc : s.conn = .connected
     · exact useCk _ hc (disconnectFromHost_ck s)
@@ -1984,7 +1997,7 @@ theorem start_after_redirect {c cr s} (h : Ph c false .idle false false s) (hcr 
     Start c cr (step (step s (.recv (.streamError true))).1 .socketConnected).1 := by
   obtain ⟨h1, h2, h3, h4, h5, h6, h7, h8⟩ := h
   have e : step s (.recv (.streamError true)) =
-      ({ s with redirect := false, conn := .connecting, encrypted := false, authenticated := false },
+      ({ s with redirect := false, conn := .connecting, encrypted := false, authenticated := false, target := .redirect },
        [send { s with redirect := true } .streamClose]) := by
     simp [step, recv, h2, h3, hh, dispatch, h5, idleHandle, idleGuarded, El.isStreamLevel, St.preTls, idleHandle', socketClose, onSocketDisconnected, h7, h6]
   rw [e]
@@ -2408,8 +2421,8 @@ theorem smEnableHandle_aok (s : St) (e : El) (hc : s.conn = .connected) (ha : s.
     AOk s (smEnableHandle s e) := by
   unfold smEnableHandle
   split
-  · rename_i resume
-    exact Or.inr (Or.inl (by show (openSession (onSmEnabled s resume).1).1.authenticated = true; rw [openSession_auth]; exact ha))
+  · rename_i resume loc
+    exact Or.inr (Or.inl (by show (openSession (onSmEnabled s resume loc).1).1.authenticated = true; rw [openSession_auth]; exact ha))
   · exact Or.inr (Or.inl (by show (openSession s).1.authenticated = true; rw [openSession_auth]; exact ha))
   · exact Or.inl (closed_reject s hc)
 
@@ -2477,6 +2490,7 @@ theorem step_ainv (s : St) (e : Ev) (hi : AInv s) (hm : MInv s) (hd : demandsAut
     · exact key
   | recvWhitespace => exact hi
   | recvPartial => simp only [step]; split <;> exact ⟨hi.1, hi.2⟩
+  | tick => rcases tick_cases s with h | ⟨k, h⟩ <;> rw [h] <;> exact hi
   | closeTail =>
     by_cases hc : s.conn = .connected
     · exact ainv_of_aok (s := s) (Or.inl (closed_disconnect s hc)) hi
@@ -2550,6 +2564,7 @@ theorem nc_step (s : St) (e : Ev) (hnc : NC s) (h3 : appWaits s e) :
   | recvPartial => left; simp only [step]; split
                    · exact hnc
                    · exact nc_upd hnc rfl rfl
+  | tick => left; rcases tick_cases s with h | ⟨k, h⟩ <;> rw [h] <;> exact hnc
   | closeTail => exact Or.inl (disconnectFromHost_nc s hnc).2
   | recv el => exact Or.inl (recv_nc el s hnc).2
   | sendIq => exact Or.inl (sendIq_nc s hnc).2
@@ -2576,6 +2591,7 @@ theorem clear_step_nC0 (s : St) (e : Ev) (hreq : s.cfg.tls = .required) (hclear 
   | sendIq => exact absurd h3 hclear
   | recvWhitespace => simp [step]
   | recvPartial => simp only [step]; split <;> simp
+  | tick => rcases tick_cases s with h | ⟨k, h⟩ <;> rw [h] <;> simp [send]
   | closeTail => simp [step]
   | recv el =>
     simp only [step]
@@ -2599,29 +2615,11 @@ theorem clear_step_nC0 (s : St) (e : Ev) (hreq : s.cfg.tls = .required) (hclear 
             · rw [hl]
               exact nC_starttlsHandle s el
 
-theorem step_ginv (s : St) (e : Ev) (hreq : s.cfg.tls = .required) (hg : GInv s)
-    (ha : appUsesSession s e) :
+theorem step_ginv_w (s : St) (e : Ev) (hreq : s.cfg.tls = .required) (hg : GInv s)
+    (h3 : appWaits s e) :
     (∀ o ∈ (step s e).2, o.clearOk) ∧ GInv (step s e).1 := by
   obtain ⟨hinv, hm, hs3⟩ := hg
-  have h3 : appWaits s e := by
-    cases e with
-    | sendIq =>
-      have hi : isConnected s = true := ha
-      simp [isConnected] at hi
-      show NC s
-      by_cases hnc : NC s
-      · exact hnc
-      · have := hs3 hnc
-        rw [this] at hi; cases hi.2
-    | connectToServer => exact ha
-    | socketConnected => trivial
-    | socketError => trivial
-    | socketDisconnected => trivial
-    | recv el => trivial
-    | recvWhitespace => trivial
-    | recvPartial => trivial
-    | closeTail => trivial
-  have hsafe := step_safe s e hreq hinv h3
+  have hsafe := step_safe s e hreq hinv hs3 h3
   refine ⟨hsafe.1, hsafe.2, step_minv s e hm, ?_⟩
   intro hpost
   by_cases hnc : NC s
@@ -2641,6 +2639,48 @@ theorem step_ginv (s : St) (e : Ev) (hreq : s.cfg.tls = .required) (hg : GInv s)
     rcases step_effD s e with he | he
     · rw [he.2 h0]; exact hs3 hnc
     · exact he.2.2.1
+
+
+/-- an application that sends only while `isConnected()` satisfies `appWaits` in every state of the invariant -/
+theorem appWaits_of_appUsesSession (s : St) (e : Ev) (hg : GInv s) (ha : appUsesSession s e) : appWaits s e := by
+  obtain ⟨hinv, hm, hs3⟩ := hg
+  cases e with
+  | sendIq =>
+    have hi : isConnected s = true := ha
+    simp [isConnected] at hi
+    show NC s
+    by_cases hnc : NC s
+    · exact hnc
+    · have := hs3 hnc
+      rw [this] at hi; cases hi.2
+  | connectToServer => exact ha
+  | socketConnected => trivial
+  | socketError => trivial
+  | socketDisconnected => trivial
+  | recv el => trivial
+  | recvWhitespace => trivial
+  | recvPartial => trivial
+  | tick => trivial
+  | closeTail => trivial
+
+theorem step_ginv (s : St) (e : Ev) (hreq : s.cfg.tls = .required) (hg : GInv s)
+    (ha : appUsesSession s e) :
+    (∀ o ∈ (step s e).2, o.clearOk) ∧ GInv (step s e).1 := by
+  exact step_ginv_w s e hreq hg (appWaits_of_appUsesSession s e hg ha)
+
+theorem run_ginv_w (evs : List Ev) (s : St) (hreq : s.cfg.tls = .required) (hg : GInv s)
+    (ha : Along appWaits s evs) : (∀ o ∈ (run s evs).2, o.clearOk) ∧ GInv (run s evs).1 := by
+  induction evs generalizing s with
+  | nil => exact ⟨fun o ho => (by cases ho), hg⟩
+  | cons e es ih =>
+    have h1 := step_ginv_w s e hreq hg ha.1
+    have h2' := ih (step s e).1 (by simpa using hreq) h1.2 ha.2
+    refine ⟨?_, h2'.2⟩
+    intro o ho
+    simp only [run] at ho
+    rcases List.mem_append.mp ho with ho | ho
+    · exact h1.1 o ho
+    · exact h2'.1 o ho
 
 theorem run_ginv (evs : List Ev) (s : St) (hreq : s.cfg.tls = .required) (hg : GInv s)
     (ha : Along appUsesSession s evs) : (∀ o ∈ (run s evs).2, o.clearOk) ∧ GInv (run s evs).1 := by
@@ -2776,6 +2816,7 @@ theorem el_entered_only_by_a_write (s : St) (e : Ev) (hpre : ¬ EL s.listener) (
     · show ¬ EL (sendStanza s (.iqRequest false)).1.listener; rw [hc]; exact hpre
   | recvWhitespace => exact absurd hpost hpre
   | recvPartial => exfalso; revert hpost; simp only [step]; split <;> exact hpre
+  | tick => exfalso; revert hpost; rcases tick_cases s with h | ⟨k, h⟩ <;> rw [h] <;> exact hpre
   | closeTail => exfalso; revert hpost; show ¬ EL (disconnectFromHost s).1.listener; rw [disconnectFromHost_listener]; exact hpre
   | recv el =>
     revert hpost
@@ -2868,6 +2909,7 @@ theorem session_opened_from (s : St) (e : Ev) (h : nC (step s e).2 ≠ 0) :
   | sendIq => exfalso; apply h; simp only [step, sendIq]; cnt_crush
   | recvWhitespace => exfalso; apply h; simp [step]
   | recvPartial => exfalso; apply h; simp only [step]; split <;> simp
+  | tick => exfalso; apply h; rcases tick_cases s with h' | ⟨k, h'⟩ <;> rw [h'] <;> simp [send]
   | closeTail => exfalso; apply h; simp [step]
   | recv el =>
     revert h
